@@ -857,7 +857,8 @@ def index_insert_retried(ctx, p):
                                 # handed on: the call's result is what the caller returns on that path
                                 d_ = cb.term(cs)['d']
                                 hands_on = d_ == [0] or (len(d_) == 1 and d_[0] in backward_slice(cb, [[0]]).locals)
-                                if hands_on and depth > 0 and '{closure' not in cb.path:
+                                # (only through a private function: the planner entry points themselves have to retry)
+                                if hands_on and depth > 0 and '{closure' not in cb.path and str(cb.d.get('vis')) != 'Public':
                                     r_ = retried_by_callers(cb.path, depth - 1)
                                     if r_[0]:
                                         continue
